@@ -188,6 +188,182 @@ def built_string_parts(body, op):
     return parts
 
 
+def filtered_chars_loop(body, l):
+    """A String filled by a per-character filter loop —
+           let mut out = String::new();  for c in SRC.chars() { if keep(c) { out.push(c) } }
+    For the String local `l` (whole-local moves are followed back) returns (SRC E, c E, [(guard E, polarity)]) when: the string
+    starts empty, its only mutation is one `push` of the loop's own character inside one loop driven by `Chars::next`, the loop is
+    left only when the iterator is exhausted (no break: it is a filter, not a prefix), and every condition between the loop head and
+    the push is a bool test.  None otherwise.  The guards are the keep-predicate; the caller evaluates them per character."""
+    for _ in range(6):
+        wd = body.whole_defs(l)
+        if len(wd) == 1 and wd[0][2] == "assign" and wd[0][3]["rv"]["k"] == "use" and wd[0][3]["rv"]["op"].get("k") in ("move", "copy") \
+                and not wd[0][3]["rv"]["op"]["place"]["p"]:
+            l = wd[0][3]["rv"]["op"]["place"]["l"]
+            continue
+        break
+    if body.locals[l]["ty"] != "std::string::String":
+        return None
+    wd = body.whole_defs(l)
+    if not (len(wd) == 1 and wd[0][2] == "call" and (callee_name(wd[0][3]).endswith("String::new") or callee_name(wd[0][3]).endswith("String::with_capacity"))):
+        return None
+    mutref = set()
+    for (i, j, st) in body.stmts():
+        if st["k"] == "assign" and st["rv"]["k"] == "ref" and st["rv"]["place"]["l"] == l:
+            if st["rv"]["place"]["p"] or st["place"]["p"]:
+                return None
+            if st["rv"].get("mut"):
+                mutref.add(st["place"]["l"])
+    pushes = []
+    for (bb, t) in body.calls():
+        for ai, a in enumerate(t["args"]):
+            if a["k"] != "const" and not a["place"]["p"] and a["place"]["l"] in mutref:
+                if ai == 0 and callee_name(t).endswith("String::push"):
+                    pushes.append((bb, t))
+                else:
+                    return None
+    if len(pushes) != 1:
+        return None
+    pb, pt = pushes[0]
+    heads = body.loops()
+    inl = [h for h, tails in heads.items() if pb in body.loop_body(h, tails)]
+    if len(inl) != 1:
+        return None
+    h = inl[0]
+    lb = body.loop_body(h, heads[h])
+    ht = body.blocks[h]["term"]
+    if not (ht["k"] == "call" and callee_name(ht).endswith("Iterator>::next") and "Chars" in ht["args"][0]["place"]["ty"] and ht.get("target") is not None):
+        return None
+    nxt = ht["dest"]["l"]
+    sw = ht["target"]
+    st_ = body.blocks[sw]["term"]
+    if st_["k"] != "switch":
+        return None
+    # the loop is left only from the test of `next()`'s result
+    for x in lb:
+        for y in body.bsucc[x]:
+            if y not in lb and x != sw:
+                t_ = body.blocks[x]["term"]
+                if t_["k"] in ("call", "assert", "drop") and t_.get("target") in lb:
+                    continue            # only the unwind edge leaves
+                return None
+    c = strip_refs(body.expr_operand(pt["args"][1]))
+    if not (c.k == "field" and strip_refs(c.a[0]).k == "downcast"):
+        return None
+    src_call = strip_refs(strip_refs(c.a[0]).a[0])
+    if not (src_call.k == "call" and src_call.a[0].endswith("Iterator>::next") and src_call.a[2] == h):
+        return None
+    it = src_call.a[1][0]
+    chars = contains_call(it, lambda n: n.endswith("str>::chars"))
+    if chars is None:
+        return None
+    src = chars.a[1][0]
+    guards = []
+    for (d, pol, sbb) in guards_of(body, pb):
+        if sbb not in lb or sbb == sw:
+            continue
+        if body.blocks[sbb]["term"]["discr_ty"] != "bool" or pol is None:
+            return None
+        guards.append((d, pol))
+    return src, c, guards
+
+
+def mapped_vec_loop(body, l):
+    """A Vec filled by a one-to-one loop —  let mut out = Vec::new();  for x in SRC { out.push(f(x)) }
+    For the Vec local `l` returns the iterated source E when: the vector starts empty, its only mutation is one `push` inside one
+    loop driven by an in-memory iterator's `next`, the push is executed on every iteration (it dominates every back edge and no
+    branch inside the loop other than the end-of-iteration test exists) and the loop is left only when the iterator is exhausted.
+    The result then has exactly as many elements as the source yields.  None otherwise."""
+    for _ in range(6):
+        wd = body.whole_defs(l)
+        if len(wd) == 1 and wd[0][2] == "assign" and wd[0][3]["rv"]["k"] == "use" and wd[0][3]["rv"]["op"].get("k") in ("move", "copy") \
+                and not wd[0][3]["rv"]["op"]["place"]["p"]:
+            l = wd[0][3]["rv"]["op"]["place"]["l"]
+            continue
+        break
+    if not body.locals[l]["ty"].startswith("std::vec::Vec<"):
+        return None
+    wd = body.whole_defs(l)
+    if not (len(wd) == 1 and wd[0][2] == "call" and (callee_name(wd[0][3]).endswith("Vec::<T>::new") or callee_name(wd[0][3]).endswith("Vec::<T>::with_capacity"))):
+        return None
+    mutref = set()
+    for (i, j, st) in body.stmts():
+        if st["k"] == "assign" and st["rv"]["k"] == "ref" and st["rv"]["place"]["l"] == l:
+            if st["rv"]["place"]["p"] or st["place"]["p"]:
+                return None
+            if st["rv"].get("mut"):
+                mutref.add(st["place"]["l"])
+    pushes = []
+    for (bb, t) in body.calls():
+        for ai, a in enumerate(t["args"]):
+            if a["k"] != "const" and not a["place"]["p"] and a["place"]["l"] in mutref:
+                if ai == 0 and callee_name(t).endswith("::push") and "Vec" in callee_name(t):
+                    pushes.append((bb, t))
+                else:
+                    return None
+    if len(pushes) != 1:
+        return None
+    pb, pt = pushes[0]
+    heads = body.loops()
+    inl = [h for h, tails in heads.items() if pb in body.loop_body(h, tails)]
+    if len(inl) != 1:
+        return None
+    h = inl[0]
+    lb = body.loop_body(h, heads[h])
+    ht = body.blocks[h]["term"]
+    if not (ht["k"] == "call" and callee_name(ht).endswith("Iterator>::next") and ht.get("target") is not None
+            and any(x in ht["args"][0]["place"]["ty"] for x in ("slice::Iter<", "vec::IntoIter<", "Chars"))):
+        return None
+    sw = ht["target"]
+    if body.blocks[sw]["term"]["k"] != "switch":
+        return None
+    for x in lb:
+        t_ = body.blocks[x]["term"]
+        if t_["k"] == "switch" and x != sw:
+            return None                          # a conditional inside the loop: not one push per element
+        for y in body.bsucc[x]:
+            if y not in lb and x != sw:
+                if t_["k"] in ("call", "assert", "drop") and t_.get("target") in lb:
+                    continue
+                return None
+    if not all(body.dominates(pb, tl) for tl in heads[h]):
+        return None
+    it = body.expr_operand(ht["args"][0])
+    x = strip_refs(it)
+    for _ in range(6):
+        if x.k == "call" and x.a[1] and (x.a[0].endswith("::into_iter") or x.a[0].endswith("::iter") or x.a[0].endswith("::chars")
+                                         or x.a[0].endswith("::cloned") or x.a[0].endswith("::copied")):
+            x = strip_refs(x.a[1][0])
+            continue
+        break
+    return x
+
+
+def eval_char_guard(pe, d, c_term, cp):
+    """Truth of the bool E `d` for the character `cp` standing for `c_term`; None when not understood."""
+    d = strip_refs(d)
+    if d.k == "un" and d.a[0] == "Not":
+        v = eval_char_guard(pe, d.a[1], c_term, cp)
+        return None if v is None else (not v)
+    if d.k == "const" and d.a[0][0] == "bool":
+        return bool(d.a[0][1])
+    if d.k == "call":
+        args = [strip_refs(peel_conv(a)) for a in d.a[1]]
+        if d.a[0].endswith("str>::contains") and len(args) == 2 and is_const(args[0], "str") and strip_refs(d.a[1][1]) == c_term:
+            return chr(cp) in const_val(args[0])
+        if len(d.a[1]) == 1 and strip_refs(d.a[1][0]) == c_term and d.a[0] in pe.prog.fns:
+            r = pe.call(d.a[0], [cp])
+            return r if isinstance(r, bool) else None
+    if d.k == "bin" and d.a[0] in ("Eq", "Ne"):
+        l, r = strip_refs(d.a[1]), strip_refs(d.a[2])
+        for x, y in ((l, r), (r, l)):
+            if x == c_term and (is_const(y, "char") or is_const(y, "int")):
+                v = const_val(y)
+                v = ord(v) if isinstance(v, str) else v
+                return (cp == v) if d.a[0] == "Eq" else (cp != v)
+    return None
+
+
 def strip_refs_keep(e):
     while e.k in ("ref", "deref"):
         e = e.a[0]
@@ -1282,11 +1458,21 @@ def known_switch_value(e):
         return ord(e.a[0][1])
     if e.k == "discr":
         x = strip_refs(e.a[0])
-        if x.k == "agg" and x.t is not None and "vidx" in x.t:
+        if x.k == "agg" and x.t is not None and "vidx" in x.t and x.t.get("adt") != "std::cmp::Ordering":    # (Ordering's discriminants are −1, 0, 1)
             return x.t["vidx"]
     if e.k == "un" and e.a[0] == "Not":
         v = known_switch_value(e.a[1])
         return None if v is None else int(not v)
+    if e.k == "bin" and e.a[0] in ("Eq", "Ne", "Lt", "Le", "Gt", "Ge"):
+        l, r = known_switch_value(e.a[1]), known_switch_value(e.a[2])
+        if l is not None and r is not None:
+            return int({"Eq": l == r, "Ne": l != r, "Lt": l < r, "Le": l <= r, "Gt": l > r, "Ge": l >= r}[e.a[0]])
+    if e.k == "bin" and e.a[0] in ("BitAnd", "BitOr"):
+        l, r = known_switch_value(e.a[1]), known_switch_value(e.a[2])
+        if l is not None and r is not None and l in (0, 1) and r in (0, 1):
+            return (l & r) if e.a[0] == "BitAnd" else (l | r)
+    if e.k == "cast":
+        return known_switch_value(e.a[1])
     return None
 
 
